@@ -1445,3 +1445,100 @@ Proof.
   apply pxdelta_rescale; [|discriminate].
   intros a b H. now rewrite H.
 Qed.
+
+(* ------------------------------------------------------------------ *)
+(* the laws for the per-event (array) route                             *)
+(* ------------------------------------------------------------------ *)
+Lemma map2_F2_gen {A A' B} (f : A -> B -> option Q) (f' : A' -> B -> option Q)
+      (g : A -> A') l m :
+  (forall a b, oqeq (f' (g a) b) (f a b)) ->
+  Forall2 oqeq (map2 f' (map g l) m) (map2 f l m).
+Proof.
+  intros H. revert m. induction l as [|a l IH]; intros [|b m]; simpl;
+    constructor; auto.
+Qed.
+
+Lemma map_map2 {A B C D} (h : C -> D) (f : A -> B -> C) l m :
+  map h (map2 f l m) = map2 (fun a b => h (f a b)) l m.
+Proof. revert m. induction l; intros [|b m]; simpl; congruence. Qed.
+
+Section ArrayLaws.
+  Variable tri : list pt -> list triangle.
+  Variable delta : feat -> Q -> Q -> Q.
+
+  Notation route_array := (route_array tri delta).
+  Notation spec_emod := (spec_emod tri delta).
+
+  Let aev (L : lut) (S : setup) :=
+    array_event delta L S (lmax (map nx (l_nodes L))) (lmax (map nd (l_nodes L)))
+                (normalize_nodes (l_nodes L))
+                (tri (map fst (normalize_nodes (l_nodes L)))).
+
+  Lemma route_array_unfold L S vs evs :
+    route_array L S vs evs
+    = match broadcast vs (length evs) with
+      | Some vs' => Some (map2 (aev L S) evs vs')
+      | None => None
+      end.
+  Proof. reflexivity. Qed.
+
+  (* proportional to the flow rate, per-event viscosities *)
+  Theorem prop_flow_rate_array L S vs k evs r :
+    lut_ok L -> setup_ok S ->
+    route_array L S vs evs = Some r ->
+    exists r', route_array L (with_flow S k) vs evs = Some r' /\
+               Forall2 oqeq r' (map (omul k) r).
+  Proof.
+    intros HL HS Hr. rewrite route_array_unfold in *.
+    destruct (broadcast vs (length evs)) as [vs'|]; [|discriminate].
+    inversion Hr; subst. eexists; split; [reflexivity|].
+    rewrite map_map2. apply map2_F2. intros ev v.
+    assert (HS' : setup_ok (with_flow S k)) by exact HS.
+    eapply oqeq_trans; [apply (array_event_spec tri delta L (with_flow S k) ev v HL HS')|].
+    eapply oqeq_trans; [apply spec_flow|].
+    apply omul_compat; [reflexivity|].
+    apply oqeq_sym, (array_event_spec tri delta L S ev v HL HS).
+  Qed.
+
+  (* joint geometric rescaling, per-event viscosities *)
+  Theorem geometric_rescale_invariant_array L S vs lam evs r :
+    lut_ok L -> setup_ok S -> 0 < lam -> delta_rescale delta lam ->
+    route_array L S vs evs = Some r ->
+    exists r', route_array L (rescale_setup S lam) vs
+                           (map (rescale_event (l_feat L) lam) evs) = Some r' /\
+               Forall2 oqeq r' r.
+  Proof.
+    intros HL HS Hlam Hd Hr. rewrite route_array_unfold in *.
+    rewrite map_length.
+    destruct (broadcast vs (length evs)) as [vs'|]; [|discriminate].
+    inversion Hr; subst. eexists; split; [reflexivity|].
+    assert (HS' : setup_ok (rescale_setup S lam)).
+    { unfold setup_ok, rescale_setup in *. simpl. now apply Qmult_lt_0_compat. }
+    apply map2_F2_gen. intros ev v.
+    eapply oqeq_trans;
+      [apply (array_event_spec tri delta L (rescale_setup S lam) _ v HL HS')|].
+    eapply oqeq_trans; [apply (spec_rescale tri delta L S v lam ev HL HS Hlam Hd)|].
+    apply oqeq_sym, (array_event_spec tri delta L S ev v HL HS).
+  Qed.
+End ArrayLaws.
+
+Theorem geometric_rescale_invariant_array_pxdelta :
+  forall (tri : list pt -> list triangle) (expo : Q -> Q)
+         (L : lut) (S : setup) (vs : list Q) (lam : Q) (evs : list event)
+         (r : list (option Q)),
+    (forall a b, a == b -> expo a == expo b) ->
+    lut_ok L -> setup_ok S -> 0 < lam ->
+    route_array tri (pxdelta expo) L S vs evs = Some r ->
+    exists r', route_array tri (pxdelta expo) L (rescale_setup S lam) vs
+                           (map (rescale_event (l_feat L) lam) evs) = Some r' /\
+               Forall2 oqeq r' r.
+Proof.
+  intros tri expo L S vs lam evs r Hp HL HS Hlam.
+  apply geometric_rescale_invariant_array; auto.
+  apply pxdelta_rescale; auto. now apply pos_neq0.
+Qed.
+
+Example ex_array_laws :
+  exists r, route_array ex_tri ex_delta ex_lut ex_setup [5; 6; 7] ex_events = Some r
+            /\ exists e1 e2, r = [Some e1; Some e2; None].
+Proof. eexists. split; [reflexivity|]. vm_compute. eauto. Qed.
